@@ -16,6 +16,22 @@ type StringValue struct {
 }
 
 func (d *Document) CopyStringValue(ref int) int {
+	if d.StringValues[ref].BlockString {
+		// BlockStringValue() depends on the whitespace around the trimmed content: copy the raw
+		// content, enclosed in quotes so that the copy is delimited like the original
+		start, end := d.blockStringRawRange(ref)
+		content := d.StringValues[ref].Content
+		lead, length := content.Start-uint32(start), content.End-content.Start
+		raw := make([]byte, 0, end-start+2)
+		raw = append(raw, '"')
+		raw = append(raw, d.Input.RawBytes[start:end]...)
+		raw = append(raw, '"')
+		copied := d.Input.AppendInputBytes(raw)
+		return d.AddStringValue(StringValue{
+			BlockString: true,
+			Content:     ByteSliceReference{Start: copied.Start + 1 + lead, End: copied.Start + 1 + lead + length},
+		})
+	}
 	return d.AddStringValue(StringValue{
 		BlockString: d.StringValues[ref].BlockString,
 		Content:     d.copyByteSliceReference(d.StringValues[ref].Content),
@@ -39,28 +55,41 @@ func (d *Document) StringValueIsBlockString(ref int) bool {
 }
 
 func (d *Document) BlockStringValueContentRawBytes(ref int) []byte {
+	start, end := d.blockStringRawRange(ref)
+	return d.Input.RawBytes[start:end]
+}
 
-	// Gets the full block string content, just inside the """ quotes.
-	// This is needed because the lexer ignores whitespace and we need to preserve it
-	// to account for the indentation of the block string.
+// blockStringRawRange returns the range of the full block string content, just inside the """
+// quotes. The lexer strips the whitespace around the content, which is needed to account for the
+// indentation of the block string: the range is extended over the whitespace on both sides as long
+// as a quote delimits it (a string value that was not lexed from a block string literal, e.g. an
+// imported one, has nothing around it that belongs to it).
+func (d *Document) blockStringRawRange(ref int) (start, end int) {
+	isWhitespace := func(b byte) bool { return b == ' ' || b == '\t' || b == '\r' || b == '\n' }
 
-	blockStart := 0
-	for i := int(d.StringValues[ref].Content.Start) - 1; i >= 0; i-- {
+	start = int(d.StringValues[ref].Content.Start)
+	for i := start - 1; i >= 0; i-- {
 		if d.Input.RawBytes[i] == '"' {
-			blockStart = i + 1
+			start = i + 1
+			break
+		}
+		if !isWhitespace(d.Input.RawBytes[i]) {
 			break
 		}
 	}
 
-	blockEnd := d.Input.Length
-	for i := int(d.StringValues[ref].Content.End); i < d.Input.Length; i++ {
+	end = int(d.StringValues[ref].Content.End)
+	for i := end; i < len(d.Input.RawBytes); i++ {
 		if d.Input.RawBytes[i] == '"' {
-			blockEnd = i
+			end = i
+			break
+		}
+		if !isWhitespace(d.Input.RawBytes[i]) {
 			break
 		}
 	}
 
-	return d.Input.RawBytes[blockStart:blockEnd]
+	return start, end
 }
 
 func (d *Document) BlockStringValueContentRawString(ref int) string {
@@ -90,8 +119,8 @@ func (d *Document) BlockStringValueContentBytes(ref int) []byte {
 		}
 	}
 
-	// find first non-whitespace-only line
-	firstLine := 0
+	// find first non-whitespace-only line (there is none: the value is empty)
+	firstLine := len(lines)
 	for i, line := range lines {
 		if leadingWhitespaceCount(line) != len(line) {
 			firstLine = i
@@ -108,8 +137,12 @@ func (d *Document) BlockStringValueContentBytes(ref int) []byte {
 		}
 	}
 
-	// join the lines to keep and return the result
-	return bytes.Join(lines[firstLine:lastLine+1], []byte{'\n'})
+	if firstLine > lastLine {
+		return nil
+	}
+
+	// join the lines to keep and unescape the only escape sequence of block strings
+	return bytes.ReplaceAll(bytes.Join(lines[firstLine:lastLine+1], []byte{'\n'}), []byte(`\"""`), []byte(`"""`))
 }
 
 func (d *Document) BlockStringValueContentString(ref int) string {
